@@ -481,7 +481,7 @@ func genCase(t *rapid.T) *Case {
 }
 
 func TestPropMachine(t *testing.T) {
-	n := hx.N(600, 12000)
+	n := hx.N(600, 8000)
 	if v, err := strconv.Atoi(os.Getenv("C14_N")); err == nil && v > 0 {
 		n = v // development knob: number of machines per shard
 	}
@@ -575,7 +575,7 @@ func sampleConc(c *Case) interface{} {
 // TestPropConcurrent: several goroutines share one client; every file has a
 // single writer, so the verdict does not depend on the schedule.
 func TestPropConcurrent(t *testing.T) {
-	hx.Check(t, "concurrent", hx.N(25, 400), func(t *rapid.T) {
+	hx.Check(t, "concurrent", hx.N(25, 300), func(t *rapid.T) {
 		c := genConc(t)
 		hx.Journal("concurrent", c)
 		hx.ExtraAdd("concurrent_cases", 1)
